@@ -215,6 +215,20 @@ pub fn worker_abs(w: &mut WorkerCtx) {
             }
             check_abs(w, &AbsCase { arg: t, cwd, home: home.as_deref(), v: v.as_deref() }, &mem, true);
         }
+        // longer arguments over the three symbols that drive the lexical walk (runs of '..' before, between and
+        // after names need 10+ characters)
+        let walk = ["/", ".", "a"];
+        let nw = count_upto(3, w.tier.pick(10, 12));
+        for i in 0..nw {
+            if !w.mine(i) {
+                continue;
+            }
+            nth_string(&walk, i, &mut buf);
+            if buf.len() as u32 <= maxlen {
+                continue; // covered by the full alphabet above
+            }
+            check_abs(w, &AbsCase { arg: &buf, cwd, home: home.as_deref(), v: v.as_deref() }, &mem, true);
+        }
     }
     // no IO: abs never created anything in Memfs; and on Stdfs abs works with the sandbox removed
     if mem.verif_dump().entries.len() != dump0_entries {
@@ -675,7 +689,7 @@ pub fn run(ctx: &Ctx) -> i32 {
         ("deferred_builder_cases_stdfs", J::i(g.c("deferred_builder_cases_stdfs"))),
         ("machinery_setup_failures", J::i(g.c("machinery_setup_failures"))),
         ("exhaustive", J::Bool(true)),
-        ("bounds", J::s(format!("strings to length {}; cwds /, <SB>, <SB>/a/b; HOME/V settings {:?}", ctx.tier.pick(6, 8), combos))),
+        ("bounds", J::s(format!("strings to length {} (over the walk alphabet {{/,.,a}} to length 10 quick / 12 thorough); cwds /, <SB>, <SB>/a/b; HOME/V settings {:?}", ctx.tier.pick(6, 8), combos))),
     ]);
     finish(ctx, Evidence {
         level: "exploration",
